@@ -204,6 +204,70 @@ def brute_captures(sub):
     return {k: v for k, v in used.items() if k not in defined}
 
 
+
+def directed_capture_cases(failures):
+    """Capture analysis on shapes the random specs do not produce: node-less nested graphs (a branch returning its own
+    initializer, a pass-through body) placed BEFORE graphs/nodes that do capture, GRAPHS-valued attributes, and captures
+    three levels down."""
+    from onnx_ir.analysis import analyze_implicit_usage
+    count = 0
+
+    def op(name, inputs, attrs=(), n_out=1):
+        nd = ir.Node("", "Op", inputs=list(inputs), num_outputs=n_out, name=name, attributes=list(attrs))
+        for k, o in enumerate(nd.outputs):
+            o.name = f"{name}_o{k}"
+        return nd
+
+    for variant in range(6):
+        count += 1
+        x, y = ir.Value(name="x"), ir.Value(name="y")
+        m = op("m", [x])
+        const = ir.Value(name="c", const_value=ir.tensor([1.0], name="c"))
+        empty_then = ir.Graph([], [const], nodes=[], initializers=[const], name="then_const")            # node-less
+        pin = ir.Value(name="p_in")
+        passthrough = ir.Graph([pin], [pin], nodes=[], name="loop_body_passthrough")                   # node-less
+        u1 = op("u1", [x, y])
+        else_g = ir.Graph([], [u1.outputs[0]], nodes=[u1], name="else_uses_xy")
+        deep_use = op("deep_use", [m.outputs[0], y])
+        lvl3 = ir.Graph([], [deep_use.outputs[0]], nodes=[deep_use], name="lvl3")
+        h2 = op("h2", [], attrs=[ir.AttrGraph("body", lvl3)])
+        lvl2 = ir.Graph([], [h2.outputs[0]], nodes=[h2], name="lvl2")
+        h1 = op("h1", [], attrs=[ir.AttrGraph("body", lvl2)])
+        lvl1 = ir.Graph([], [h1.outputs[0]], nodes=[h1], name="lvl1")
+        if variant == 0:
+            nodes = [m, op("if1", [x], attrs=[ir.AttrGraph("then_branch", empty_then), ir.AttrGraph("else_branch", else_g)]),
+                     op("late", [m.outputs[0]], attrs=[ir.AttrGraph("body", lvl1)])]
+        elif variant == 1:
+            nodes = [m, op("loop", [x], attrs=[ir.AttrGraph("body", passthrough)]), op("if1", [x], attrs=[ir.AttrGraph("else_branch", else_g)]),
+                     op("late", [], attrs=[ir.AttrGraph("body", lvl1)])]
+        elif variant == 2:
+            nodes = [m, op("multi", [x], attrs=[ir.AttrGraphs("branches", [empty_then, else_g, passthrough, lvl1])])]
+        elif variant == 3:
+            nodes = [m, op("multi", [x], attrs=[ir.AttrGraphs("branches", [else_g, lvl1, empty_then])]), op("tail", [y])]
+        elif variant == 4:
+            nodes = [op("if1", [x], attrs=[ir.AttrGraph("a_then", empty_then), ir.AttrGraph("z_else", else_g)]), m,
+                     op("late", [], attrs=[ir.AttrGraph("body", lvl1)])]
+        else:
+            holder_inner = op("inner_if", [y], attrs=[ir.AttrGraph("then_branch", passthrough), ir.AttrGraph("else_branch", lvl1)])
+            outer_body = ir.Graph([], [holder_inner.outputs[0]], nodes=[holder_inner], name="outer_body")
+            nodes = [m, op("outer", [x], attrs=[ir.AttrGraph("body", outer_body)])]
+        main = ir.Graph([x, y], [nodes[-1].outputs[0]], nodes=nodes, name="main")
+        try:
+            res = analyze_implicit_usage(main)
+            subs = nested_graphs(main)
+            if {id(s) for s in subs} != {id(k) for k in res}:
+                failures.append(f"capture directed#{variant}: analysis reports {sorted(k.name for k in res)} but the nested graphs are {sorted(s.name for s in subs)}")
+            for sgr in subs:
+                want = brute_captures(sgr)
+                got = {id(v): v for v in res.get(sgr, ())}
+                if set(want) != set(got):
+                    failures.append(f"capture directed#{variant}: graph {sgr.name!r}: reported {sorted(v.name for v in got.values())}, "
+                                    f"brute force {sorted(v.name for v in want.values())}")
+        except Exception as e:  # noqa: BLE001
+            failures.append(f"capture directed#{variant}: raised {e!r}"[:200])
+    return count
+
+
 def specs(tier, rnd):
     labels0 = ["x0", "x1", "w"]
     out = []
@@ -235,6 +299,10 @@ def main():
     rnd = random.Random(a.seed)
     failures, evaluations, distinct, samples = [], 0, set(), []
     from onnx_ir.analysis import analyze_implicit_usage
+    nd = directed_capture_cases(failures)
+    evaluations += nd
+    for i in range(nd):
+        distinct.add(("capture-directed", i))
     for spec in specs(a.tier, rnd):
         n, wi, body = spec
         # (b) capture analysis
